@@ -525,8 +525,18 @@ func genScript(t *rapid.T, maxLoggers, maxSteps int) []Step {
 			lg := rapid.IntRange(0, nLoggers-1).Draw(t, "logger")
 			s := genWriterOp(t, writerOps, lg, models[lg])
 			if s.Op != "" {
+				// a third of the operations are sandwiched between two probes of one severity on that logger
+				// (whatever the routing remembered for that severity must not survive the operation)
+				sandwich := rapid.IntRange(0, 2).Draw(t, "probeBeforeAndAfter") == 0
+				sev := rapid.SampledFrom(probeLevels).Draw(t, "sandwichSeverity")
+				if sandwich {
+					script = append(script, Step{Op: "probe", Logger: lg, Level: sev})
+				}
 				script = append(script, s)
 				models[lg].apply(s)
+				if sandwich {
+					script = append(script, Step{Op: "probe", Logger: lg, Level: sev})
+				}
 			}
 		}
 	}
